@@ -14,10 +14,13 @@
      [k |-> "copy",     f, g, fresh, live, ss, hbs] g = f.copy(): fresh = g.id differs from every other flow's id
      [k |-> "raised",   op, f, exc]                 the call raised (class name)
    With repeated backup() calls and no revert in between the statement does not say which call "the backup"
-   refers to: the monitor accepts the state at the earliest or at the latest such call (b1 / b2; 0 = no backup). *)
+   refers to: the monitor accepts the state at the earliest or at the latest such call (b1 / b2; 0 = no backup).
+   A copy inherits the backup of its source; that backup was taken under the source's id, the copy has a fresh one.
+   Whether the id belongs to "the state" is not said, so while a handle's backup is an inherited one (inh) the monitor
+   accepts modified() = TRUE as well as the verdict of the content comparison.                                  *)
 EXTENDS Verif
 
-MonInit == [bad |-> <<>>, wit |-> {}, ss |-> <<>>, b1 |-> <<>>, b2 |-> <<>>, cp |-> {}]
+MonInit == [bad |-> <<>>, wit |-> {}, ss |-> <<>>, b1 |-> <<>>, b2 |-> <<>>, inh |-> <<>>, cp |-> {}]
 
 Handles(m) == 1..Len(m.ss)
 Backups(m, f) == IF m.b1[f] = 0 THEN {} ELSE {m.b1[f], m.b2[f]}
@@ -33,7 +36,8 @@ Clause(m, ev) ==
          ELSE <<>>
     [] ev.k = "modified" ->
          LET s == ev.ss[ev.f]
-             ok == IF m.b1[ev.f] = 0 THEN {FALSE} ELSE {s # m.b1[ev.f], s # m.b2[ev.f]}
+             ok == IF m.b1[ev.f] = 0 THEN {FALSE}
+                   ELSE {s # m.b1[ev.f], s # m.b2[ev.f]} \cup (IF m.inh[ev.f] THEN {TRUE} ELSE {})
          IN IF ev.r \in ok THEN <<>>
             ELSE <<"C40.modified_iff_differs",
                    IF ~ev.r THEN "differs_from_backup" ELSE IF m.b1[ev.f] = 0 THEN "no_backup" ELSE "equal_to_backup">>
@@ -52,7 +56,8 @@ WitOf(m, ev) ==
                              (IF m.ss[ev.f] # m.b1[ev.f] THEN {"repeated_backup_after_edit"} ELSE {}) ELSE {"backup"}
     [] ev.k = "modified" ->
          IF m.b1[ev.f] = 0 THEN {"modified_no_backup"}
-         ELSE IF ev.ss[ev.f] \in Backups(m, ev.f) THEN {"modified_equal_to_backup"} ELSE {"modified_differs"}
+         ELSE (IF ev.ss[ev.f] \in Backups(m, ev.f) THEN {"modified_equal_to_backup"} ELSE {"modified_differs"})
+              \cup (IF m.inh[ev.f] THEN {"modified_with_inherited_backup"} ELSE {})
     [] ev.k = "edit" ->
          (IF m.b1[ev.f] # 0 /\ ev.ss[ev.f] \in Backups(m, ev.f) /\ m.ss[ev.f] \notin Backups(m, ev.f)
             THEN {"edit_back_to_backup"} ELSE {})
@@ -64,7 +69,8 @@ WitOf(m, ev) ==
 MonStep(m, ev) ==
   IF ev.k = "raised" THEN [m EXCEPT !.bad = Clause(m, ev)]
   ELSE IF ev.k = "init" THEN
-    [m EXCEPT !.ss = ev.ss, !.b1 = [h \in 1..Len(ev.ss) |-> 0], !.b2 = [h \in 1..Len(ev.ss) |-> 0]]
+    [m EXCEPT !.ss = ev.ss, !.b1 = [h \in 1..Len(ev.ss) |-> 0], !.b2 = [h \in 1..Len(ev.ss) |-> 0],
+              !.inh = [h \in 1..Len(ev.ss) |-> FALSE]]
   ELSE
     LET f == ev.f
         s == ev.ss[f]
@@ -73,6 +79,9 @@ MonStep(m, ev) ==
          !.wit = @ \cup WitOf(m, ev),
          !.ss  = ev.ss,
          !.cp  = IF ev.k = "copy" THEN @ \cup {ev.g} ELSE @,
+         !.inh = CASE ev.k = "revert" -> [@ EXCEPT ![f] = FALSE]
+                   [] ev.k = "copy"   -> Append(@, ev.hbs[ev.g])
+                   [] OTHER -> @,
          !.b1  = CASE ev.k = "backup" -> [@ EXCEPT ![f] = IF @ = 0 THEN s ELSE @]
                    [] ev.k = "revert" -> [@ EXCEPT ![f] = 0]
                    [] ev.k = "copy"   -> Append(@, IF ev.hbs[ev.g] THEN m.b1[f] ELSE 0)
